@@ -306,17 +306,27 @@ fn judge(report: &mut Report, o: &Outcome, schema_text: &str, ext: &str, documen
 }
 
 pub fn run(report: &mut Report, replay: Option<&Value>) {
-    report.rule = "base pairs: valid (schema, document) of the supported subset that the generator accepts; to each, every applicable single invalidating edit at every selection-set position (any depth, inside fragments and inline fragments; object / interface / union parents): unknown field, sub-selection on a leaf, none on a composite field, undefined fragment spread, type condition naming no type (inline and fragment definition), type condition with empty possible-type intersection, removed __typename on an abstract selection, second subscription root field (direct, and through a spread as a separate sub-rule), anonymous operation (both spellings), operation kind without root type. An edited document is used only if the model validator rejects it by exactly that rule. Oracle: generation returns Err or panics with a message; Ok(tokens) is a violation. Non-trivial: edit below the root selection set (depth >= 2) or inside a fragment; distinct by (base hash, rule, position).".into();
+    report.rule = "base pairs: valid (schema, document) of the supported subset that the generator accepts; to each, every applicable single invalidating edit at every selection-set position (any depth, inside fragments and inline fragments; object / interface / union parents): unknown field, sub-selection on a leaf, none on a composite field, undefined fragment spread, type condition naming no type (inline and fragment definition), type condition with empty possible-type intersection, removed __typename on an abstract selection, second subscription root field (direct, and through a spread as a separate sub-rule), anonymous operation (both spellings), operation kind without root type; half of the edited documents are passed as a string, half as a file. Plus schema evolution: the unchanged operations file against version 1 of the schema (accepted) and then, in the same process, against a version 2 in which one well-formedness-preserving schema edit (field removed or turned into a scalar - consistently across an interface and its implementors -, `implements` entry removed, union member removed, root dropped) makes it unanswerable by the model. An edited document is used only if the model validator rejects it by exactly that rule. Oracle: generation returns Err or panics with a message; Ok(tokens) is a violation. Non-trivial: edit below the root selection set (depth >= 2) or inside a fragment; distinct by (base hash, rule, position).".into();
     report.assumptions = vec!["the model validator (world::validate) implements the listed GraphQL validation rules".into(), "removing `__typename` counts only when no same-type spread still supplies it".into()];
     let scratch = Scratch::new("c06");
     let pool = Pool::default();
     if let Some(v) = replay {
+        if v["mode"] == "schema-evolution" {
+            replay_evolution(report, v);
+            report.nontrivial.insert(1);
+            report.nontrivial.insert(2);
+            return;
+        }
         check_one(report, &pool, &scratch, v["schema"].as_str().unwrap_or(""), v["schema_ext"].as_str().unwrap_or("graphql"), v["document"].as_str().unwrap_or(""), v["rule"].as_str().unwrap_or(""), v["parent_kind"].as_str().unwrap_or(""), v["at"].as_str().unwrap_or(""), &[]);
         report.nontrivial.insert(1);
         report.nontrivial.insert(2);
         return;
     }
     super::replay_corpus(report, &|r, v| {
+        if v["mode"] == "schema-evolution" {
+            replay_evolution(r, v);
+            return;
+        }
         let scratch = Scratch::new("c06c");
         check_one(r, &Pool::default(), &scratch, v["schema"].as_str().unwrap_or(""), v["schema_ext"].as_str().unwrap_or("graphql"), v["document"].as_str().unwrap_or(""), v["rule"].as_str().unwrap_or(""), v["parent_kind"].as_str().unwrap_or(""), v["at"].as_str().unwrap_or(""), &[]);
     });
@@ -368,7 +378,10 @@ pub fn run(report: &mut Report, replay: Option<&Value>) {
                 report.nontrivial.insert(base_hash ^ fnv_str(&[e.rule.id(), &e.at]));
             }
             let sp = scratch.file(&b.case.schema_text, &b.case.schema_ext);
-            jobs.push(Job { schema_path: sp, query: QuerySrc::Text(text.clone()), opts: Opts::default(), cwd: None });
+            // both entry points: the document as a string, and as a file of its own read by the library
+            let q = if st.chance(50) { QuerySrc::Path(scratch.file(&text, "graphql")) } else { QuerySrc::Text(text.clone()) };
+            report.feature(if matches!(q, QuerySrc::Path(_)) { "entry:file" } else { "entry:string" });
+            jobs.push(Job { schema_path: sp, query: q, opts: Opts::default(), cwd: None });
             metas.push((tp.clone(), b.case.schema_text.clone(), b.case.schema_ext.clone(), text, e.rule.id(), e.parent_kind, e.at));
         }
     }
@@ -381,6 +394,232 @@ pub fn run(report: &mut Report, replay: Option<&Value>) {
         report.sample(json!({"schema": schema.chars().take(900).collect::<String>(), "edited_document": text.chars().take(700).collect::<String>(), "rule": rule, "parent_kind": pk, "at": at, "outcome": o.short()}));
     }
     report.extra.insert("generator".into(), json!({"generated": stats.generated, "model_invalid": stats.model_invalid}));
+    evolution_campaign(report, if report.thorough() { 6000 } else { 1200 });
+}
+
+/// Single edits of the *schema* that keep it well-formed: a field removed (from an interface and
+/// all its implementors, or from an object no interface of which declares it), a composite field
+/// turned into `Int` the same way, an `implements` entry removed, a union member removed, a
+/// mutation / subscription root dropped.
+fn schema_edits(schema: &Schema, t: &mut Tape, max: usize) -> Vec<(String, Schema)> {
+    let mut out: Vec<(String, Schema)> = Vec::new();
+    let iface_field_names = |s: &Schema, oi: usize| -> Vec<String> { s.objects[oi].implements.iter().flat_map(|i| s.interfaces[*i].fields.iter().map(|f| f.name.clone())).collect() };
+    let reset = |o: &mut ObjectT| {
+        o.ext_split = None;
+        o.ext_impl_split = None;
+    };
+    // object-only fields
+    for (oi, o) in schema.objects.iter().enumerate() {
+        let shared = iface_field_names(schema, oi);
+        for (fi, f) in o.fields.iter().enumerate() {
+            if shared.contains(&f.name) || o.fields.len() < 2 {
+                continue;
+            }
+            let mut b = schema.clone();
+            b.objects[oi].fields.remove(fi);
+            reset(&mut b.objects[oi]);
+            out.push((format!("field {}.{} removed", o.name, f.name), b));
+            if f.ty.named.is_composite() {
+                let mut b = schema.clone();
+                b.objects[oi].fields[fi].ty.named = Named::Int;
+                reset(&mut b.objects[oi]);
+                out.push((format!("field {}.{} becomes Int", o.name, f.name), b));
+            }
+        }
+        for k in 0..o.implements.len() {
+            // an interface left without any implementor is a degenerate schema (nothing can be
+            // spread or selected there by the letter of the spec): not an edit of this campaign
+            let ii = o.implements[k];
+            if schema.objects.iter().enumerate().filter(|(oj, x)| *oj != oi && x.implements.contains(&ii)).count() == 0 {
+                continue;
+            }
+            let mut b = schema.clone();
+            b.objects[oi].implements.remove(k);
+            reset(&mut b.objects[oi]);
+            out.push((format!("{} no longer implements {}", o.name, schema.interfaces[o.implements[k]].name), b));
+        }
+    }
+    // interface fields, consistently in all implementors
+    for (ii, i) in schema.interfaces.iter().enumerate() {
+        for f in &i.fields {
+            if i.fields.len() < 2 {
+                continue;
+            }
+            let mut b = schema.clone();
+            b.interfaces[ii].fields.retain(|x| x.name != f.name);
+            let mut ok = true;
+            for (oi, o) in schema.objects.iter().enumerate() {
+                if o.implements.contains(&ii) {
+                    // another interface of the object may still require the field
+                    let still: bool = o.implements.iter().any(|j| *j != ii && schema.interfaces[*j].fields.iter().any(|x| x.name == f.name));
+                    if still {
+                        continue;
+                    }
+                    if o.fields.len() < 2 {
+                        ok = false;
+                    }
+                    b.objects[oi].fields.retain(|x| x.name != f.name);
+                    reset(&mut b.objects[oi]);
+                }
+            }
+            if ok {
+                out.push((format!("field {}.{} removed from the interface and its implementors", i.name, f.name), b));
+            }
+        }
+    }
+    for (ui, u) in schema.unions.iter().enumerate() {
+        if u.members.len() < 2 {
+            continue;
+        }
+        for k in 0..u.members.len() {
+            let mut b = schema.clone();
+            b.unions[ui].members.remove(k);
+            out.push((format!("{} is no longer a member of {}", schema.objects[u.members[k]].name, u.name), b));
+        }
+    }
+    if schema.mutation.is_some() {
+        let mut b = schema.clone();
+        b.mutation = None;
+        out.push(("the schema no longer has a mutation root".into(), b));
+    }
+    if schema.subscription.is_some() {
+        let mut b = schema.clone();
+        b.subscription = None;
+        out.push(("the schema no longer has a subscription root".into(), b));
+    }
+    while out.len() > max {
+        let i = t.below(out.len());
+        out.swap_remove(i);
+    }
+    out
+}
+
+fn evolution_one(dir: &std::path::Path, a: &str, b: &str, ext: &str, doc: &str, via_path: bool) -> Result<(Outcome, Outcome), String> {
+    use crate::e2::{run_history_fresh, History};
+    let _ = std::fs::create_dir_all(dir);
+    let pa = dir.join(format!("v1.{}", ext));
+    let pb = dir.join(format!("v2.{}", ext));
+    let pq = dir.join("operations.graphql");
+    std::fs::write(&pa, a).map_err(|e| e.to_string())?;
+    std::fs::write(&pb, b).map_err(|e| e.to_string())?;
+    std::fs::write(&pq, doc).map_err(|e| e.to_string())?;
+    let q = || if via_path { QuerySrc::Path(pq.to_string_lossy().into_owned()) } else { QuerySrc::Text(doc.to_string()) };
+    let h = History { calls: vec![Job { schema_path: pa.to_string_lossy().into_owned(), query: q(), opts: Opts::default(), cwd: None }, Job { schema_path: pb.to_string_lossy().into_owned(), query: q(), opts: Opts::default(), cwd: None }], threads: 1 };
+    let r = run_history_fresh(&h, std::time::Duration::from_secs(60));
+    let _ = std::fs::remove_dir_all(dir);
+    let mut outs = r?;
+    if outs.len() != 2 {
+        return Err("short history answer".into());
+    }
+    let o2 = outs.pop().unwrap();
+    let o1 = outs.pop().unwrap();
+    Ok((o1, o2))
+}
+
+/// The same operations file against version 1 of a schema (valid) and then, in the same process,
+/// against version 2 in which a single schema edit makes it unanswerable.
+fn evolution_campaign(report: &mut Report, n: usize) {
+    let root = crate::work_dir().join("e2").join(format!("c06e-{}", std::process::id()));
+    let cfg = CaseCfg::default();
+    let mut stats = GenStats::default();
+    let tapes = sample_tapes(report.seed, 0xC06E, n, 3072);
+    struct Ev {
+        tape: Vec<u8>,
+        a: String,
+        b: String,
+        ext: &'static str,
+        doc: String,
+        what: String,
+        rules: Vec<&'static str>,
+        via_path: bool,
+    }
+    let accepted = [Rule::UnknownField, Rule::ImpossibleTypeCondition, Rule::MissingRootType, Rule::SubselectionOnLeaf, Rule::UnknownTypeCondition];
+    let mut evs: Vec<Ev> = Vec::new();
+    for tp in &tapes {
+        let mut t = Tape::new(tp);
+        let Some(base) = build_base(&mut t, &cfg, &mut stats) else { continue };
+        let mut st = Tape::new(&tp[tp.len() / 2..]);
+        let doc = render_document(&base.world.doc, &base.world.schema, &QueryStyle { trivia: None });
+        let json_format = st.chance(35) && !base.world.schema.inputs.iter().any(|i| i.one_of);
+        for (what, sb) in schema_edits(&base.world.schema, &mut st, 40) {
+            let vs = validate(&sb, &base.world.doc);
+            if vs.is_empty() || !vs.iter().all(|v| accepted.contains(&v.rule)) {
+                continue;
+            }
+            let (a, b, ext) = if json_format {
+                (base.world.schema.to_introspection_json(&JsonStyle::default()).to_string(), sb.to_introspection_json(&JsonStyle::default()).to_string(), "json")
+            } else {
+                (base.world.schema.to_sdl(&SdlStyle::default()), sb.to_sdl(&SdlStyle::default()), "graphql")
+            };
+            let mut rules: Vec<&'static str> = vs.iter().map(|v| v.rule.id()).collect();
+            rules.sort();
+            rules.dedup();
+            evs.push(Ev { tape: tp.clone(), a, b, ext, doc: doc.clone(), what, rules, via_path: st.chance(75) });
+            if evs.len() % 4 == 0 {
+                break;
+            }
+        }
+    }
+    let results: Vec<Result<(Outcome, Outcome), String>> = {
+        let next = std::sync::atomic::AtomicUsize::new(0);
+        let out: std::sync::Mutex<Vec<Option<Result<(Outcome, Outcome), String>>>> = std::sync::Mutex::new((0..evs.len()).map(|_| None).collect());
+        std::thread::scope(|s| {
+            for _ in 0..16 {
+                s.spawn(|| loop {
+                    let k = next.fetch_add(1, std::sync::atomic::Ordering::SeqCst);
+                    if k >= evs.len() {
+                        break;
+                    }
+                    let e = &evs[k];
+                    let r = evolution_one(&root.join(format!("e{}", k)), &e.a, &e.b, e.ext, &e.doc, e.via_path);
+                    out.lock().unwrap()[k] = Some(r);
+                });
+            }
+        });
+        out.into_inner().unwrap().into_iter().map(|x| x.unwrap()).collect()
+    };
+    for (e, r) in evs.iter().zip(results) {
+        match r {
+            Err(why) => report.count_extra(&format!("evolution_inconclusive:{}", crate::campaign::dedup_text(&why)), 1),
+            Ok((o1, o2)) => {
+                if !o1.is_ok() {
+                    report.count_extra("evolution_v1_not_accepted", 1);
+                    continue;
+                }
+                report.evaluations += 1;
+                report.feature("schema_evolution");
+                for r in &e.rules {
+                    report.feature(&format!("evolution_rule:{}", r));
+                }
+                report.feature(if e.via_path { "evolution:file" } else { "evolution:string" });
+                report.nontrivial.insert(fnv_str(&[&e.a, &e.doc, &e.what]));
+                let bad = match &o2 {
+                    Outcome::Ok(_) => Some("generation succeeded".to_string()),
+                    Outcome::Err(_) | Outcome::Panic(_) => None,
+                    other => Some(format!("generation did not end with an error: {}", other.short())),
+                };
+                if let Some(b) = bad {
+                    let summary = format!("operation accepted against a schema that can no longer answer it [{}; model: {}; same process after a successful call against the earlier schema version, {}]: {}", e.what, e.rules.join("+"), if e.via_path { "file entry point" } else { "string entry point" }, b);
+                    let replay = json!({"engine": "e2", "mode": "schema-evolution", "tape_hex": crate::tape::hex(&e.tape), "schema_v1": e.a, "schema_v2": e.b, "schema_ext": e.ext, "document": e.doc, "edit": e.what, "rules": e.rules, "via_path": e.via_path, "observed": o2.short()});
+                    report.failure(None, &format!("evolution:{}", e.rules.join("+")), &summary, || replay);
+                }
+            }
+        }
+    }
+    let _ = std::fs::remove_dir_all(&root);
+}
+
+fn replay_evolution(report: &mut Report, v: &Value) {
+    let dir = crate::work_dir().join("e2").join(format!("c06er-{}", std::process::id()));
+    report.evaluations += 1;
+    match evolution_one(&dir, v["schema_v1"].as_str().unwrap_or(""), v["schema_v2"].as_str().unwrap_or(""), v["schema_ext"].as_str().unwrap_or("graphql"), v["document"].as_str().unwrap_or(""), v["via_path"].as_bool().unwrap_or(true)) {
+        Err(e) => report.infra(format!("replay: {}", e)),
+        Ok((o1, o2)) => {
+            if o1.is_ok() && o2.is_ok() {
+                report.violation("replay-evolution", &format!("replayed: operation accepted against a schema that can no longer answer it [{}]", v["edit"].as_str().unwrap_or("")), v.clone());
+            }
+        }
+    }
 }
 
 /// (rule id, document text) for every edit the model confirms as invalid by exactly that rule
